@@ -622,9 +622,16 @@ Definition automated_exports (c : cfgT) (l : layer) : list (bytes * bytes) :=   
 
 Definition make_symlink_in_dir e (source target : bytes) : M unit :=
   f <- get_fs ;;
-  if is_symlink f target then ret tt else
-  (if is_dir f (pathdir target) then ret tt else fs_mkdir e (pathdir target)) ;;;
-  fs_symlink e target source.
+  let fresh :=
+    f1 <- get_fs ;;
+    (if is_dir f1 (pathdir target) then ret tt else fs_mkdir e (pathdir target)) ;;;
+    fs_symlink e target source in
+  if is_symlink f target then
+    match readlink f target with
+    | Some t => if beq t source then ret tt else fs_remove e target ;;; fresh
+    | None => fs_remove e target ;;; fresh
+    end
+  else fresh.
 
 Fixpoint mapM_ {A} (f : A -> M unit) (l : list A) : M unit :=
   match l with [] => ret tt | x :: r => f x ;;; mapM_ f r end.
@@ -634,8 +641,10 @@ Definition make_export_symlinks e (c : cfgT) (l : layer) : M unit :=
   | None => fail
   | Some es =>
     mapM_ (fun x => make_symlink_in_dir e (x_source x) (x_mount x)) es ;;;
-    mapM_ (fun lt => f <- get_fs ;;
-                     if exists_ f (snd lt) then make_symlink_in_dir e (snd lt) (fst lt) else ret tt)
+    mapM_ (fun lt => if memb (fst lt) (map x_mount es) then ret tt else
+                     f <- get_fs ;;
+                     if exists_ f (snd lt) then make_symlink_in_dir e (snd lt) (fst lt)
+                     else if is_symlink f (fst lt) then fs_remove e (fst lt) else ret tt)
           (automated_exports c l)
   end.
 
@@ -848,12 +857,9 @@ Definition mount_layer e (c : cfgT) (ld : ldefs) (name : bytes) : M ldefs :=
     | None => diverge
     | Some chain =>
       ld1 <- foldM (fun ld x => makedirs e c ld (l_name x)) chain ld ;;
-      foldM (fun ld x =>
-               ld' <- mount_one e c ld (l_name x) ;;
-               match lm_get (ld_map ld') (l_name x) with
-               | None => panic
-               | Some lx => make_export_symlinks e c lx ;;; ret ld'
-               end) chain ld1
+      ld2 <- foldM (fun ld x => mount_one e c ld (l_name x)) chain ld1 ;;
+      mapM_ (fun x => make_export_symlinks e c x) chain ;;;
+      ret ld2
     end
   end.
 
